@@ -6,6 +6,7 @@ import SJ.Model.IoKind
 import SJ.Model.Write
 import SJ.Model.WriteTrace
 import SJ.Spec.Utf8
+import SJ.Spec.Viable
 namespace SJ.Drv.C13
 open SJ SJ.Drv SJ.Drv.Mach SJ.Model.Machine SJ.Model.IoFault
 
@@ -18,6 +19,35 @@ def judgeFault (kind o oeof : String) : List String :=
   else if o == s!"IO:{kind}" then []
   else if o == oeof && ((oeof.splitOn ":").getD 2 "" == "syntax" || (oeof.splitOn ":").getD 2 "" == "data") then []
   else [s!"C13 reader failing with {kind}: got {o}; the same bytes followed by end of input give {oeof}"]
+
+/-- which documents an untyped target accepts, as far as the first byte tells: `value` / `ignored` / `raw` any JSON text,
+    `rawvec` (`Vec<Box<RawValue>>`) any array, `rawmap` (`BTreeMap<String, Box<RawValue>>`) any object -/
+def shapeOf (tgt : String) : Option (Option UInt8) :=
+  if tgt == "value" || tgt == "ignored" || tgt == "raw" then some none
+  else if tgt == "rawvec" then some (some 0x5b)
+  else if tgt == "rawmap" then some (some 0x7b)
+  else none
+
+/-- the SPECIFICATION-side "not doomed" test of the delivered prefix `p` (independent of model and crate): `Spec.Viable.strictViable p`
+    — some continuation completes `p` to a JSON text that every untyped target accepts; a prefix ending inside a multi-byte UTF-8
+    character is viable — and, for the two container-of-raw targets, the first byte does not already rule the target's shape out.
+    `false` for the typed targets (no verdict beyond `judgeFault`). -/
+def prefixViable (tgt : String) (p : Bytes) : Bool :=
+  match shapeOf tgt with
+  | none => false
+  | some sh =>
+    Spec.Viable.strictViable p &&
+    (match sh, Spec.Viable.firstByte p with
+     | some b, some c => b == c
+     | _, _ => true)
+
+/-- C13 on a delivered fault after a viable prefix: nothing but `Io` with the reader's kind is acceptable — in particular
+    not the error that a clean end of input (or a validation of the partly filled raw buffer) would give at this point. `d` = the
+    harness's "the reader's error was handed out" flag. -/
+def judgeViable (tgt kind : String) (p : Bytes) (o d : String) : List String :=
+  if d == "1" && o != s!"IO:{kind}" && o != "PANIC" && prefixViable tgt p then
+    [s!"C13 reader failing with {kind} after {p.length} bytes that do not doom the input (a continuation completes them to an acceptable document): got {o}, expected IO:{kind}"]
+  else []
 
 /-- an `ErrorKind` name of the harness as `Model.Write.Kind` (an opaque tag: the name's bytes in base 256) and back -/
 def ioErrorOfName (name : String) : Model.Write.IoError :=
@@ -45,7 +75,7 @@ def rfault : Handler := fun args impl =>
           let (l, col) := lineCol bs idx
           s!"E:{hexOfBytes (Gen.message code)}:{catName (Gen.classify code)}:{l}:{col}"
       match impl.splitOn "|" with
-      | [o, oeof, d] => { model := m ++ "|" ++ oeof ++ "|" ++ d, specs := judgeFault kind o oeof }
+      | [o, oeof, d] => { model := m ++ "|" ++ oeof ++ "|" ++ d, specs := judgeFault kind o oeof ++ judgeViable "raw" kind (bs.take k) o d }
       | _ => bad "obs"
     | _, _ => bad "decode"
   | [c, t, kind, ks, h] =>
@@ -63,7 +93,7 @@ def rfault : Handler := fun args impl =>
           let (l, col) := lineCol bs idx
           s!"E:{hexOfBytes (Gen.message code)}:{catName (Gen.classify code)}:{l}:{col}"
       match impl.splitOn "|" with
-      | [o, oeof, d] => { model := m ++ "|" ++ oeof ++ "|" ++ d, specs := judgeFault kind o oeof }
+      | [o, oeof, d] => { model := m ++ "|" ++ oeof ++ "|" ++ d, specs := judgeFault kind o oeof ++ judgeViable t kind (bs.take k) o d }
       | _ => bad "obs"
     | _, _, _ => bad "decode"
   | _ => bad "arity"
@@ -71,9 +101,13 @@ def rfault : Handler := fun args impl =>
 /-- typed targets: no model yet — the property's own predicate only -/
 def rfaultt : Handler := fun args impl =>
   match args with
-  | [_, _, kind, _, _] =>
+  | [_, t, kind, ks, h] =>
     match impl.splitOn "|" with
-    | [o, oeof, _] => { model := impl, specs := judgeFault kind o oeof }
+    | [o, oeof, d] =>
+      let v := match ks.toNat?, bytesOfHex h with
+        | some k, some bs => judgeViable t kind (bs.take k) o d
+        | _, _ => []
+      { model := impl, specs := judgeFault kind o oeof ++ v }
     | _ => bad "obs"
   | _ => bad "arity"
 
